@@ -39,6 +39,10 @@ ReadResult BinaryFileReader::read_file(MeshT &out)
         state_ = ReadState::ErrorInvalidFile;
         error_msg_ = std::string("parse_error: ") + e.what();
         return ReadResult::InvalidFile;
+    } catch (io_error &e) {
+        state_ = ReadState::BadStream;
+        error_msg_ = std::string("io_error: ") + e.what();
+        return ReadResult::BadStream;
     } catch (std::exception &e) {
         state_ = ReadState::Error;
         error_msg_ = std::string("exception: ") + e.what();
